@@ -840,6 +840,9 @@ def gen_cascade_program(rng, isa=None):
         for nm in ("a", "v", "r"):
             if nm not in labels and rng.random() < 0.65:
                 items.append({"k": "const", "lvl": 0, "name": nm, "e": {"k": "num", "text": list(str(rng.choice([0, 5, 200])))}})
+    if rng.random() < 0.15:
+        # a constant that happens to be called pc: `pc` in an operand is still the address, and never known in advance
+        items.append({"k": "const", "lvl": 0, "name": "pc", "e": {"k": "num", "text": list(str(rng.choice([0, 5, 0x77])))}})
     casc = [m for m in isa["mnemonics"] if m in ("ld", "jmp", "br", "adds", "jr", "sel", "zj", "far")]
     for i in range(rng.randrange(3, 16)):
         c = rng.random()
@@ -879,7 +882,8 @@ def gen_cascade_program(rng, isa=None):
                     if rng.random() < 0.2:
                         toks += [tok("op", "+", True), num_tok(rng, rng.choice([1, 2, 0x10, 0xf0, 0x100]), True, "hex")]
                 elif c2 < 0.8:
-                    toks += [tok("id", "$", True)]
+                    # the current address, under either of its names (a symbol may be CALLED pc: the name still means the address)
+                    toks += [tok("id", rng.choice(["$", "$", "pc"]), True)]
                 else:
                     toks += [num_tok(rng, rng.choice([0, 5, 15, 16, 255, 256, 300, 65535, 65536]), True)]
             items.append({"k": "instr", "toks": toks})
@@ -1268,9 +1272,11 @@ def gen_cond_program(rng):
             items.append(_item(k="const", lvl=0, name=n, e=value_expr(n)))
     hier = rng.random() < 0.3
     if hier:
-        items.append(_item(k="label", lvl=0, name="lab"))
+        # (a parent spelled like the built-in address: `pc.N` is still the symbol N under the label pc)
+        hname = rng.choice(["lab", "lab", "pc"])
+        items.append(_item(k="label", lvl=0, name=hname))
         items.append(_item(k="const", lvl=1, name="N", e={"k": "num", "text": ["3"]}))
-        items.append(_item(k="data", w=8, es=[{"k": "var", "lvl": 0, "path": ["lab", "N"]}]))
+        items.append(_item(k="data", w=8, es=[{"k": "var", "lvl": 0, "path": [hname, "N"]}]))
         if rng.random() < 0.5:
             # a condition that names the nested constant with a leading dot, and (sometimes) a global of the same
             # name with another value: the pre-pass evaluates in the global scope, where `.N` is not `N`
@@ -1366,7 +1372,8 @@ def gen_macro_program(rng):
     fnames = []
     for i in range(rng.randrange(0, 3)):
         name = "fn%d" % i
-        params = ["p", "q"][:rng.choice([1, 2])]
+        # (now and then a parameter spelled like a built-in function: the parameter it is)
+        params = rng.choice([["p", "q"], ["p", "q"], ["p", "q"], ["le", "q"], ["p", "sizeof"], ["ascii", "strlen"]])[:rng.choice([1, 2])]
         c = rng.random()
         if c < 0.4:
             body = {"k": "bin", "op": rng.choice(["add", "sub", "mul", "and"]), "l": var(params[0]),
@@ -1486,7 +1493,7 @@ def gen_macro_program(rng):
         c = rng.random()
         if rng.random() < 0.2:
             # a nested label of the call site: an operand `.here` means lab0.here wherever the rule was written
-            nm = "h%d" % len(nested)
+            nm = "z%d" % len(nested)        # (no letter that a glued unit suffix or a word separator starts with)
             items.append(_item(k="label", lvl=1, name=nm))
             nested.append("." + nm)
         refs = labels + nested * 2 + consts
@@ -1532,6 +1539,21 @@ def depth_boundary_programs():
                 rules.append({"block": "cpu", "sub": False, "pat": [_lit("m%d" % i), {"p": "ws"}, _par("a")],
                               "prod": {"k": "asm", "assigns": [], "lines": [{"k": "instr", "name": "", "toks": [tok("id", inner, True), ph("a", True)]}]}})
             out.append({"rules": rules, "items": [_item(k="instr", toks=[tok("id", "m%d" % (k - 1), True), tok("num", "", True, list(arg))])], "fns": fns})
+    # block labels on and off an address boundary (a 4-bit instruction in front of them)
+    nib = {"block": "cpu", "sub": False, "pat": [_lit("nib")], "prod": numlit("0x5")}
+    ldb = {"block": "cpu", "sub": False, "pat": [_lit("ldb"), {"p": "ws"}, _par("a")], "prod": concat([numlit("0x10"), {"k": "sshort", "e": var("a"), "n": numlit("8")}])}
+    def blk(name, seq):
+        lines = []
+        for x in seq:
+            if x == "l":
+                lines.append({"k": "label", "name": "l", "toks": []})
+            elif x == "nib":
+                lines.append({"k": "instr", "name": "", "toks": [tok("id", "nib", True)]})
+            else:
+                lines.append({"k": "instr", "name": "", "toks": [tok("id", "ldb", True), tok("id", "l", True)]})
+        return {"block": "cpu", "sub": False, "pat": [_lit(name)], "prod": {"k": "asm", "assigns": [], "lines": lines}}
+    for seq in (["nib", "l", "nib", "ldb"], ["nib", "nib", "l", "ldb"], ["l", "nib", "nib", "ldb"], ["nib", "ldb", "nib", "l"], ["nib", "nib", "nib", "l", "nib"]):
+        out.append({"rules": [nib, ldb, blk("t", seq)], "items": [_item(k="data", w=8, es=[numlit("1")]), _item(k="instr", toks=[tok("id", "t", True)])], "fns": []})
     return out
 
 
@@ -1567,7 +1589,9 @@ def render_macro_program(P):
                         for i, t in enumerate(ln["toks"]):
                             sp = "{%s}" % t["s"] if t["k"] == "ph" else ("".join(t["text"]) if t["k"] == "num" else t["s"])
                             txt.append((" " if (t["b"] and i > 0) else "") + sp)
-                        out.append("        " + "".join(txt) + "\n")
+                        # now and then a comment with a brace in it: it is a comment, not the end of the block
+                        deco = ["", "", "", " ; }", "", " ;* { *;", "", " ; {x}"][(len("".join(txt)) + len(out)) % 8]
+                        out.append("        " + "".join(txt) + deco + "\n")
                 out.append("    }\n" + ("    }\n" if asg else ""))
             else:
                 out.append("    %s => %s\n" % (render_pattern(r["pat"]), genexpr.render(r["prod"])))
